@@ -30,6 +30,7 @@ func init() {
 		Assumptions: []string{"a shadow inotify instance attached to the same inodes receives the same notifications in the same order (kernel fsnotify groups)", "strict mode: the reader has caught up (barrier) before every Add/Remove"},
 		Batches:     func(t string) int { return map[string]int{"quick": 16, "thorough": 64}[t] },
 		RaceBatches: func(t string) int { return map[string]int{"quick": 2, "thorough": 16}[t] },
+		AsanBatches: func(t string) int { return map[string]int{"quick": 0, "thorough": 2}[t] },
 		MustObserve: []string{"events_received", "windows_compared", "multi_event_reads", "overflow_cases"},
 		Run:         runC01,
 	})
